@@ -1271,7 +1271,7 @@ void janet_unmarshal_bytes(JanetMarshalContext *ctx, uint8_t *dest, size_t len) 
 Janet janet_unmarshal_janet(JanetMarshalContext *ctx) {
     Janet ret;
     UnmarshalState *st = (UnmarshalState *)(ctx->u_state);
-    ctx->data = unmarshal_one(st, ctx->data, &ret, ctx->flags);
+    ctx->data = unmarshal_one(st, ctx->data, &ret, ctx->flags + 1);
     return ret;
 }
 
